@@ -236,6 +236,10 @@ class Parser:
                     # Unquoted 'GRID' coming after NAME is always a value, not a composite type
                     if previous == "NAME":
                         t.type = "UNQUOTED_STRING_VALUE"
+                elif t.type == "FEATURE":
+                    # Unquoted 'FEATURE' coming after IMAGEMODE is always a value, not a composite type
+                    if previous == "IMAGEMODE":
+                        t.type = "UNQUOTED_STRING_VALUE"
 
             tree = ip.resume_parse()
             if self.include_comments:
